@@ -183,6 +183,16 @@ CHECKS["C17"] = (
     "DESIGN.md section 3, C17",
 )
 
+CHECKS["C19"] = (
+    "bounded-exhaustive enumeration of (input file x parse kind x emit kind x options) through the real command, each run in a forked child",
+    "Input files with 1-3 symbols (classes, functions, argparse functions, three mixed-kind files, a JSON-schema file) x explicit/inferred "
+    "parse kind x all 8 emit kinds x 2 name templates x 4 import-option combinations, plus the non-clobbering guard for every emit kind; the "
+    "output must compile, define exactly the templated names, list exactly those in __all__, every symbol must parse back to its source "
+    "interface, inferred imports must cover every typing/SQLAlchemy name used, and an existing output must be refused and left untouched.",
+    "symbol comparison under the C02/C05 normalisations; generated SQLAlchemy/pydantic code is compiled, not executed",
+    "DESIGN.md section 3, C19",
+)
+
 PENDING_REASON = "check not built yet in this revision (planned, see DESIGN.md section 3); no claim is made"
 
 
